@@ -1188,34 +1188,42 @@ def register_requirement_closure(reg):
 
 
 def replay_requirement_closure(inputs, clause):
-    """A real compiled scenario: `x` is rebound after the `require`; the requirement must see the sampled value of the
-    original binding; afterwards the module namespace must be as before the check."""
+    """A real compiled scenario: names are rebound after the `require`; the requirement must see the (sampled) values of
+    the bindings at the statement, exactly once per sample; afterwards the module namespace must be as before the check."""
     import scenic
 
     src = (
         "x = Range(1, 2)\n"
+        "y = 3\n"
+        "calls = []\n"
+        "def probe():\n"
+        "    calls.append(1)\n"
+        "    return True\n"
         "ego = new Object at (x, 0)\n"
         "def f():\n"
         "    k = Range(5, 6)\n"
         "    return lambda: k\n"
         "g = f()\n"
-        "require 1 <= x <= 2 and 5 <= g() <= 6\n"
+        "require 1 <= x <= 2 and 5 <= g() <= 6 and y == 3 and (distance to (100, 0)) > 50 and probe()\n"
         "x = 'rebound after the require'\n"
+        "y = 'rebound after the require'\n"
     )
     sc = scenic.scenarioFromString(src, mode2D=True)
     req = sc.userRequirements[0]
     ns = req.proposition.atomics()[0].closure.__globals__
-    before = {k: ns[k] for k in ("x", "ego", "g")}
+    before = {k: ns[k] for k in ("x", "y", "ego", "g")}
     cell = ns["g"].__closure__[0]
     cell_before = cell.cell_contents
-    scene, its = sc.generate(maxIterations=50)
+    n0 = len(ns["calls"])
+    scene, its = sc.generate(maxIterations=50)  # an exception inside the repository is reported by the runner
     if its != 1:
-        return f"the requirement `1 <= x <= 2 and 5 <= g() <= 6` over x = Range(1, 2), k = Range(5, 6) rejected {its - 1} samples: it did not see the sampled values of the bindings at the statement"
-    if "frame" in clause or clause == "*":
-        after = {k: ns[k] for k in before}
-        changed = [k for k in before if after[k] is not before[k]]
-        if changed and ("namespace" in clause or clause == "frame"):
-            return f"after generate() the module namespace still holds the sampled values: " + ", ".join(f"{k} = {after[k]!r} (was {before[k]!r})" for k in changed)
-        if cell.cell_contents is not cell_before and "cells" in clause:
-            return f"after generate() the closure cell of g holds {cell.cell_contents!r} (was {cell_before!r})"
+        return f"the requirement over x = Range(1, 2), k = Range(5, 6), y = 3 (all rebound or shadowed after the statement) rejected {its - 1} samples: it did not see the values of the bindings at the statement"
+    if len(ns["calls"]) - n0 != 1:
+        return f"the condition of the requirement was evaluated {len(ns['calls']) - n0} times for one sample"
+    after = {k: ns[k] for k in before}
+    changed = [k for k in before if after[k] is not before[k]]
+    if changed and ("namespace" in clause or clause == "frame"):
+        return "after generate() the module namespace still holds the values bound for the check: " + ", ".join(f"{k} = {after[k]!r} (was {before[k]!r})" for k in changed)
+    if cell.cell_contents is not cell_before and "cells" in clause:
+        return f"after generate() the closure cell of g holds {cell.cell_contents!r} (was {cell_before!r})"
     return None
